@@ -130,7 +130,16 @@ def main():
     ctx.driver = drv if (model_ok and drv.ok) else None
     ctx.findings = findings
     ctx.search = False
-    res = mod.run(ctx)
+    try:
+        res = mod.run(ctx)
+    except RecursionError:
+        # the harness walks trees by recursion over `children`; only a structure that contains itself (or an operation that
+        # never returns) exhausts the stack. Properties' own loops catch this per case; this is the fallback.
+        import traceback
+        tb = traceback.format_exc().split("\n")
+        res = {"evaluations": 0, "distinct_nontrivial": 0, "rule": "aborted: see oracle failure",
+               "oracle_fails": [{"case": {"traceback_head": tb[:12], "traceback_tail": tb[-8:]},
+                                 "what": "an operation of the implementation recursed without end or produced a tree that contains itself (the observing walk over children did not terminate)"}]}
     if ctx.driver is None:
         broken.append("correspondence: Lean driver unavailable")
     listed = lambda what_key: any(f.get("key") == what_key for f in findings)
